@@ -29,9 +29,12 @@ def tie(rep, tier, rng, model_ok):
     for c in b:
         c["tol"] = 5
         c["clock"] = [rng.choice([None, None, None, 3, 60]) for _ in range(40)]
+    # several origins (the global scheduler with >= 2 actions, and models) due at the same time: one synchronize per time
+    mo = [simgen.gen_multi_origin(rng) for _ in range(150 if q else 3000)]
     simprops.run(rep, "C18", model_ok,
-                 [("clock", a, (1,), ORACLES, nontrivial), ("clock-multi", b, (1, 4), ORACLES, nontrivial)],
-                 "scripted clock answers Synchronized / OutOfSync(3|60) at arbitrary call indices, tolerance none/5/50, random step/step_until partitions over self-scheduling and multi-model benches; the global log interleaves clock calls with handler entries. non-trivial = >=3 clock calls")
+                 [("clock", a, (1,), ORACLES, nontrivial), ("clock-multi", b, (1, 4), ORACLES, nontrivial),
+                  ("clock-multi-origin", mo, (1, 2), ORACLES, lambda c, o: True)],
+                 "multi-origin: the global scheduler (several actions) and one or two models have actions due at the same time: synchronize must be called once for that time, before any of them. scripted clock answers Synchronized / OutOfSync(3|60) at arbitrary call indices, tolerance none/5/50, random step/step_until partitions over self-scheduling and multi-model benches; the global log interleaves clock calls with handler entries. non-trivial = >=3 clock calls")
 
 
 def replay(rep, path, model_ok):
